@@ -17,6 +17,8 @@ import (
 	"sync"
 	"sync/atomic"
 	"time"
+
+	"github.com/pancsta/asyncmachine-go/pkg/x/simhook"
 )
 
 var _ Api = &Machine{}
@@ -389,6 +391,7 @@ func (m *Machine) Dispose() {
 	// doDispose in a goroutine to avoid a deadlock when called from within a
 	// handler
 	go func() {
+		simhook.At("dispose.fork", m.id)
 		if m.disposing.Load() {
 			m.log(LogDecisions, "[Dispose] already disposed")
 			// fmt.Println("[Dispose] already disposed " + m.Id())
@@ -422,6 +425,7 @@ func (m *Machine) doDispose(force bool) {
 		// already disposing
 		return
 	}
+	simhook.At("dispose.cas", m.id)
 	if !force {
 		whenIdle := m.WhenQueueEnds()
 		select {
@@ -429,6 +433,7 @@ func (m *Machine) doDispose(force bool) {
 			m.log(LogDecisions, "[doDispose] timeout waiting for queue to drain")
 		case <-whenIdle:
 		}
+		simhook.At("dispose.idle", m.id)
 	}
 	if !m.disposed.CompareAndSwap(false, true) {
 		// already disposed
@@ -443,6 +448,8 @@ func (m *Machine) doDispose(force bool) {
 
 	// skip the locks when forcing
 	if !force {
+		simhook.Hold(m.id, 1)
+		defer simhook.Hold(m.id, -1)
 		m.activeStatesMx.Lock()
 		defer m.activeStatesMx.Unlock()
 		m.subs.Mx.Lock()
@@ -836,6 +843,7 @@ func (m *Machine) PrependMut(mut *Mutation) Result {
 		mut.QueueTickNow = m.queueTick
 	}
 	m.queueMx.Unlock()
+	simhook.At("qm.prepended", m.id)
 
 	// tracers
 	if !isEval {
@@ -1352,6 +1360,7 @@ func (m *Machine) queueMutation(
 	mut.QueueTickNow = m.queueTick
 	// fmt.Printf("mut.QueueTickNow %d\n", mut.QueueTickNow)
 	m.queueMx.Unlock()
+	simhook.At("qm.appended", m.id)
 
 	// tracers
 	m.log(LogOps, "[queue:%s] %s%s", mutType, j(statesParsed),
@@ -2033,6 +2042,7 @@ func (m *Machine) processQueue() Result {
 
 	// try to acquire the lock TODO safer locking for handler deadlines?
 	if !m.queueProcessing.CompareAndSwap(false, true) {
+		simhook.At("pq.lost", m.id)
 
 		m.queueMx.Lock()
 		defer m.queueMx.Unlock()
@@ -2110,6 +2120,7 @@ func (m *Machine) processQueue() Result {
 		} else if t.IsAccepted.Load() && !t.Mutation.IsCheck {
 			// TODO optimize process only when ticks change (incl queue tick)
 			// TODO optimize: check sub ctxs also on canceled txs
+			simhook.At("pq.beforeSubs", m.id)
 			m.processSubscriptions(t)
 		}
 
@@ -2117,9 +2128,11 @@ func (m *Machine) processQueue() Result {
 	}
 
 	// release the locks
+	simhook.At("pq.exit", m.id)
 	m.t.Store(nil)
 	m.queueProcessing.Store(false)
 	m.queueRunning.Store(false)
+	simhook.At("pq.released", m.id)
 
 	// tracers
 	m.tracersMx.RLock()
